@@ -28,6 +28,10 @@ pub enum Edit {
     Truncate(u16),
     /// random bytes of the same length, first byte kept
     Random(u16),
+    /// nothing of the captured datagram but its addresses: a message fabricated without any secret, sealed under a
+    /// guessable key (`guess`: see sim::forge_sealed) for key slot `key_id` and nonce half `half`;
+    /// msg 0 = close, 1 = payload for the target's own claim, 2 = node information withdrawing all claims, 3 = keepalive
+    Forged { guess: u8, key_id: u8, half: bool, msg: u8 },
 }
 
 #[derive(Clone, Debug, Serialize, Deserialize)]
@@ -163,6 +167,30 @@ pub fn run_case(ctx: &Ctx, c: &Case) -> Outcome {
             let l = bytes.len();
             bytes.truncate(n as usize % l);
         }
+        Edit::Forged { guess, key_id, half, msg } => {
+            let mut ctr = [0u8; 8];
+            if d.data.len() >= 8 && d.data[0] != 0xff {
+                ctr[1..].copy_from_slice(&d.data[1..8]);
+            }
+            let counter = u64::from_be_bytes(ctr).wrapping_add(1 << 30);
+            let plain: Vec<u8> = match msg % 4 {
+                0 => vec![0xff],
+                1 => {
+                    let mut v = vec![0u8];
+                    v.extend_from_slice(&pkt(orig_src, target, 424_242));
+                    v
+                }
+                2 => {
+                    let mut buf = crate::sim::new_buf();
+                    vpncloud::messages::NodeInfo { node_id: [9; 16], peers: Default::default(), claims: Default::default(), peer_timeout: Some(1), addrs: Default::default() }.encode(&mut buf);
+                    let mut v = vec![1u8];
+                    v.extend_from_slice(buf.message());
+                    v
+                }
+                _ => vec![2u8],
+            };
+            bytes = crate::sim::forge_sealed(c.cipher, guess, key_id, if half { 0x80 } else { 0 }, counter, &plain);
+        }
         Edit::Random(seed) => {
             let mut x = seed as u64 * 2654435761 + 1;
             for b in bytes.iter_mut().skip(1) {
@@ -253,7 +281,7 @@ pub fn run_case(ctx: &Ctx, c: &Case) -> Outcome {
         kind, c.datagram as usize % log_len, orig_src, orig_dst, target, claimed, c.source, c.edit, c.offset
     );
     // signature: what an outsider did + which effect it had
-    let sigbase = format!("kind={}/edit={}/src={:?}", kind, if c.edit == Edit::Verbatim { "verbatim" } else { "edited" }, c.source);
+    let sigbase = format!("kind={}/edit={}/src={:?}", kind, match c.edit { Edit::Verbatim => "verbatim", Edit::Forged { .. } => "fabricated", _ => "edited" }, c.source);
     // a mesh node that dials (sends a ping to) another mesh node during the probe phase had lost that peer
     if let Some(d) = sim.wire_log.iter().find(|d| d.data.first() == Some(&0xff) && d.data.get(12) == Some(&1) && sim.index.contains_key(&d.src) && sim.index.contains_key(&d.dst)) {
         viols.push(Viol::new(
@@ -537,13 +565,31 @@ pub fn run(ctx: &Ctx) {
             }
         }
     }
+    // fabricated messages under guessable keys for every key slot and nonce half, from the peer's address, at times
+    // when 0, 1, 2 and all of the key slots have been filled by the rotation (datagram 4/5 = first sealed datagrams of
+    // the capture in either direction: both targets)
+    for guess in 0..5u8 {
+        for key_id in 0..4u8 {
+            for half in [false, true] {
+                for msg in 0..4u8 {
+                    for (k, off) in [0u32, 100, 130, 250, 500, 1000].into_iter().enumerate() {
+                        if ctx.quick() && (guess > 1 && (k + msg as usize + key_id as usize) % 3 != 0) {
+                            continue;
+                        }
+                        let datagram = 4 + ((k as u16 + msg as u16 + guess as u16) % 2);
+                        cases.push(Case { nodes: 2, cipher: (guess + key_id + msg) % 3, datagram, offset: off, source: Source::Original, other_target: false, edit: Edit::Forged { guess, key_id, half, msg }, probe_seconds: ctx.tier.pick(60, 200), early: true });
+                    }
+                }
+            }
+        }
+    }
     let total = cases.len() as u64;
     ctx.par_items(&cases, |_, c| {
         let o = run_case(ctx, c);
         if c.edit == Edit::Verbatim || c.source != Source::Unknown {
             ctx.nontrivial(&format!("{:?}", c));
         }
-        ctx.class(&format!("inject:{}:{}", o.kind, if c.edit == Edit::Verbatim { "verbatim" } else { "edited" }));
+        ctx.class(&format!("inject:{}:{}", o.kind, match c.edit { Edit::Verbatim => "verbatim", Edit::Forged { .. } => "fabricated-under-guessable-key", _ => "edited" }));
         if o.accepted_somewhere {
             ctx.class("inject:changed-target-state-or-was-answered");
         }
@@ -552,7 +598,7 @@ pub fn run(ctx: &Ctx) {
         }
         ctx.report(o.viols);
     });
-    ctx.subspace(&format!("2-node mesh: {} captured datagrams x 12 offsets x sources x targets x edits, plus early injections (linger minute)", n2), total, true);
+    ctx.subspace(&format!("2-node mesh: {} captured datagrams x 12 offsets x sources x targets x edits, plus early injections (linger minute), plus messages fabricated under 5 guessable keys x 4 key slots x 2 nonce halves x (close, payload, node info, keepalive) x 6 times", n2), total, true);
 
     // 3-node meshes: sampled, includes "another peer" as claimed source
     let n3: u32 = ctx.tier.pick(1_500, 12_000);
@@ -566,7 +612,7 @@ pub fn run(ctx: &Ctx) {
                 0usize..12,
                 prop_oneof![Just(Source::Original), Just(Source::AnotherPeer), Just(Source::Unknown)],
                 any::<bool>(),
-                prop_oneof![4 => Just(Edit::Verbatim), 1 => (any::<u16>(), 0u8..8).prop_map(|(k, b)| Edit::Flip(k, b)), 1 => any::<u16>().prop_map(Edit::Truncate)],
+                prop_oneof![4 => Just(Edit::Verbatim), 1 => (any::<u16>(), 0u8..8).prop_map(|(k, b)| Edit::Flip(k, b)), 1 => any::<u16>().prop_map(Edit::Truncate), 1 => (0u8..5, 0u8..4, any::<bool>(), 0u8..4).prop_map(|(guess, key_id, half, msg)| Edit::Forged { guess, key_id, half, msg })],
                 0u8..3,
                 any::<bool>(),
             )
